@@ -331,6 +331,18 @@ def netSplitHostPort (hp : Bytes) : Option (Bytes × Bytes) :=
 def netJoinHostPort (host port : Bytes) : Bytes :=
   if host.contains 58 then [91] ++ host ++ [93, 58] ++ port else host ++ [58] ++ port
 
+/-- the host `NewForwardedModifier` records for the client: `net.SplitHostPort(req.RemoteAddr)`'s host,
+    the whole of `RemoteAddr` when that fails.  `RemoteAddr` is `conn.RemoteAddr().String()`: the socket's
+    peer address, or the source address a PROXY protocol header announces. -/
+def peerHost (remoteAddr : Bytes) : Bytes :=
+  match netSplitHostPort remoteAddr with
+  | some (h, _) => h
+  | none => remoteAddr
+
+/-- the connection context of a request read from a connection whose `RemoteAddr` is `remoteAddr` -/
+def connCtx (remoteAddr : Bytes) (secure : Bool := false) : Ctx :=
+  { clientIP := peerHost remoteAddr, secure := secure }
+
 /-! ### IP literals: `net.ParseIP` (= `netip.ParseAddr` without zones), `IsLoopback`, `IsUnspecified` -/
 
 def splitOnByte (sep : UInt8) (s : Bytes) : List Bytes :=
